@@ -1,5 +1,5 @@
 //! C01 / C02: samplers follow their documented law (DESIGN §5).
-use crate::envelope::{classes, grid, random_cell};
+use crate::envelope::{classes, grid, random_cell, shape_lattice};
 use crate::families::{build, Cell, Fam, Ft, CONTINUOUS, CTOR_VARIANTS, DISCRETE};
 use crate::refdist::reflaw;
 use crate::report::{Ctx, Violation};
@@ -62,6 +62,9 @@ pub fn run_cell(ctx: &Ctx, plan: &LawPlan, min_n: u64) -> Option<LawOutcome> {
         ctx.nontrivial(cell.hash64());
     } else {
         ctx.class("degenerate_cells", 1);
+        let why = out.degenerate_reason.clone().unwrap_or_default();
+        let why = if why.starts_with("only") && why.contains("representable") { "few_representable_edges" } else if why.starts_with("edge") { "edge_without_samples_on_one_side" } else if why.starts_with("only") { "few_bins_with_expected_ge_1000" } else { "n_below_minimum" };
+        ctx.class(&format!("degenerate:{}:{}:{}", cell.fam.name(), ft_name(cell), why), 1);
     }
     ctx.sample(cell.hash64(), || {
         json!({"cell": cell.key(), "n": plan.n, "edges": out.edges, "min": out.min_sample, "max": out.max_sample,
@@ -104,6 +107,9 @@ pub fn plans_c01(ctx: &Ctx) -> Vec<LawPlan> {
             if matches!(fam, Fam::StandardNormal | Fam::Exp1) {
                 continue;
             }
+            for cell in shape_lattice(fam, ft, if ctx.thorough() { 48 } else { 12 }) {
+                plans.push(LawPlan { cell, n: if ctx.thorough() { n_rand } else { 2_000_000 }, origin: "shape_lattice" });
+            }
             let mut r = BaseRng::from_env(hseed(&[ctx.seed, fam as u64, ft as u64, 0xC01]));
             for _ in 0..k_rand {
                 plans.push(LawPlan { cell: random_cell(fam, ft, &mut r), n: n_rand, origin: "random" });
@@ -145,6 +151,9 @@ pub fn plans_c02(ctx: &Ctx) -> Vec<LawPlan> {
             if fam == Fam::StandardGeometric {
                 continue;
             }
+            for cell in shape_lattice(fam, ft, if ctx.thorough() { 32 } else { 8 }) {
+                plans.push(LawPlan { cell, n: if ctx.thorough() { n_rand } else { 2_000_000 }, origin: "shape_lattice" });
+            }
             let mut r = BaseRng::from_env(hseed(&[ctx.seed, fam as u64, ft as u64, 0xC02]));
             for _ in 0..k_rand {
                 plans.push(LawPlan { cell: random_cell(fam, ft, &mut r), n: n_rand, origin: "random" });
@@ -177,6 +186,23 @@ pub fn run(ctx: &Ctx, plans: Vec<LawPlan>, min_n: u64) {
     ctx.class("random_cells_excluded_by_known_finding_region", excluded);
     ctx.set_extra("cells_planned", json!(plans.len()));
     let outs: Vec<Option<LawOutcome>> = plans.par_iter().map(|p| run_cell(ctx, p, min_n)).collect();
+    // vacuity guard: every (family, float) that was planned must have produced non-trivial cells;
+    // a family whose reference or edge construction silently degenerates is an infrastructure error
+    // (exit 2), never a pass
+    let mut tally: std::collections::BTreeMap<String, (u64, u64)> = Default::default();
+    for (p, o) in plans.iter().zip(outs.iter()) {
+        let e = tally.entry(format!("{}:{}", p.cell.fam.name(), ft_name(&p.cell))).or_insert((0, 0));
+        e.0 += 1;
+        if o.as_ref().map(|o| o.nontrivial).unwrap_or(false) {
+            e.1 += 1;
+        }
+    }
+    for (k, (planned, nt)) in &tally {
+        if *planned >= 4 && *nt * 2 < *planned {
+            ctx.infra(format!("vacuous law check for {k}: only {nt} of {planned} planned cells were non-trivial"));
+        }
+    }
+    ctx.set_extra("nontrivial_by_family", json!(tally.iter().map(|(k, v)| (k.clone(), json!({"planned": v.0, "nontrivial": v.1}))).collect::<serde_json::Map<_, _>>()));
     let total_draws: u64 = outs.iter().flatten().map(|o| o.n).sum();
     ctx.set_extra("total_draws_first_stage", json!(total_draws));
     let body_res = |n: f64| (2.0 * crate::stats::L_THRESH * 0.25 / n).sqrt();
